@@ -901,14 +901,14 @@ func (lc *lcase) xexport(id int) XCase {
 // xlinkedCases: the fixed three-module cycle (exit 22 frames deep closing module c, then calls on all three) and n generated histories
 func xlinkedCases(rng *c.Rng, n int) []XCase {
 	var lcs []*lcase
-	lcs = append(lcs, fixedLinked(false, "all"))
+	lcs = append(lcs, fixedLinked(false, "all"), fixedEnterThroughA())
 	for i := 0; i < n; i++ {
 		lcs = append(lcs, genLinked(rng, i))
 	}
 	outs := make([]XCase, len(lcs))
 	for i, lc := range lcs {
 		outs[i] = lc.xexport(i)
-		outs[i].Fixed = i == 0
+		outs[i].Fixed = i < 2
 		for _, eng := range []string{"interp", "compiler"} {
 			outs[i].Engines[eng] = runXLinked(eng, lc)
 		}
@@ -974,5 +974,19 @@ func fixedLinked(closeCM bool, mode string) *lcase {
 		// exit at depth 22 closes module c; afterwards: c's exports keep running (and end in the exit error), calls through c from
 		// the other modules are unaffected, and an exit through a re-entering host
 		call(3, 4, 21, 5), call(3, 4, 3, 4), call(3, 4, 2, 4), call(1, 0, 4, 4), call(3, 4, 6, 7), call(2, 2, 8, 8), call(2, 2, 8, 10)}
+	return lc
+}
+
+// the same three-module cycle, entered through module a: a.f -> (table) c.k -> b.g -> a.f -> c.k -> b.g -> a.f -> c.k, whose leaf exits:
+// module c (twice in the middle of the chain, and innermost) is closed with code 2, the error reaches the embedder through 8 guest
+// frames of three instances; a and b stay open and keep calling through c's functions; c's exports report exit 2; a later exit
+// with another code (5) raised by c's leaf again reports 5 and leaves c's code 2.
+func fixedEnterThroughA() *lcase {
+	lc := fixedLinked(false, "all")
+	lc.mods = lc.mods[:4]
+	call := func(p, fi int, n, x uint64) lact { return lact{T: "call", Pos: p, Fi: fi, Args: []uint64{n, x}} }
+	lc.acts = []lact{{T: "inst", Pos: 1}, {T: "inst", Pos: 2}, {T: "inst", Pos: 3},
+		call(1, 0, 5, 4), call(1, 0, 7, 5), call(1, 0, 5, 4), call(2, 2, 6, 1), call(3, 4, 3, 4), call(3, 4, 9, 7),
+		call(1, 0, 4, 8), call(3, 4, 2, 4), call(2, 2, 9, 13), call(1, 0, 7, 7), call(1, 0, 3, 3), call(1, 0, 6, 1)}
 	return lc
 }
